@@ -122,6 +122,8 @@ def canon(G):
         n = G["nodes"][l]
         if "output_of" in n:
             nodes[c] = {"output_of": seen[n["output_of"]]}
+            if n.get("pre"):
+                nodes[c]["pre"] = [seen[p] for p in n["pre"]]
         else:
             nodes[c] = {"cls": n["cls"], "args": {a: rv(v) for a, v in sorted(n["args"].items())}, "meta": n.get("meta"),
                         "pre": [seen[p] for p in n.get("pre", [])], "init": [seen[p] for p in n.get("init", [])]}
@@ -184,6 +186,15 @@ def successors(G, N, allow):
     for l in list(G["nodes"]):
         n = G["nodes"][l]
         if "output_of" in n:
+            # a task output is a configuration like any other: pre-tasks can be attached to it
+            if "pre" in allow and "struct" in allow and len(n.get("pre", [])) < 1:
+                choices = (["new"] if room >= 1 else []) + [("ref", r) for r in G["nodes"] if node_cls(G, r) == "pre"]
+                for c in choices:
+                    H = clone()
+                    r = add_default_node(H, "pre") if c == "new" else c[1]
+                    H["nodes"][l]["pre"] = [r]
+                    if not creates_task_cycle(H):
+                        out.append(H)
             continue
         cls = n["cls"]
         for f in SCHEMA[cls]["fields"]:
@@ -357,6 +368,8 @@ def seeds():
     S["job-holder"] = {"root": "j", "nodes": {"j": _N("job", h=_ref("h"), ups=[_ref("u")]), "h": _N("holder", t=_ref("u"), inner=_ref("h2")),
                                               "h2": _N("holder", o=_ref("o")), "u": _N("job", x=2, pre=["p"]),
                                               "o": {"output_of": "t"}, "t": _N("jobout", x=3, up=_ref("u")), "p": _N("pre", k=2)}}
+    S["job-outpre"] = {"root": "j", "nodes": {"j": _N("job", oin=_ref("o")), "o": {"output_of": "t", "pre": ["p"]}, "t": _N("jobout", x=3),
+                                              "p": _N("pre", k=1, h=_ref("h")), "h": _N("holder", t=_ref("u")), "u": _N("job", x=2)}}
     S["job-ring"] = {"root": "j", "nodes": {"j": _N("job", ring=_ref("a")), "a": _N("ring", v=1, nxt=_ref("b")), "b": _N("ring", v=2, nxt=_ref("a"))}}
     return S
 
